@@ -84,6 +84,14 @@ type reactD struct {
 type caseD struct {
 	Setup setupD `json:"setup"`
 	Cbs   []cbD  `json:"cbs"`
+	// Restart != "": the callbacks run in the SECOND serve cycle of the service. First the service
+	// is served on connection object A, a With callback emits an event, then
+	//   "idle":          Shutdown with nothing in flight;
+	//   "inflight-with": a With callback is running when Shutdown is called and emits an event
+	//                    after A.Close() was called, while Shutdown waits for it;
+	//   "inflight-call": the same with a slow call request handler (event, Timeout, OK);
+	// then the SAME service is served on a NEW connection object B.
+	Restart string `json:"restart,omitempty"`
 }
 
 // ---------- Go values <-> Coq terms ----------
@@ -268,17 +276,21 @@ func actTerm(a actD) string {
 // ---------- recording connection ----------
 
 type fakeConn struct {
-	h  *H
-	mu sync.Mutex
-	ch chan *nats.Msg
+	h       *H
+	id      int
+	mu      sync.Mutex
+	ch      chan *nats.Msg
+	onClose func()
 }
 
+// a message counts as "on the connection" only if it is published on the connection object the
+// service is currently served on; anything else is recorded as a stale publish
 func (c *fakeConn) Publish(subject string, payload []byte) error {
-	c.h.add("EPublish " + B(subject) + " " + B(string(payload)))
+	c.h.publish(c, subject, payload)
 	return nil
 }
 func (c *fakeConn) PublishRequest(subject, reply string, data []byte) error {
-	c.h.add("EPublish " + B(subject) + " " + B(string(data)))
+	c.h.publish(c, subject, data)
 	return nil
 }
 func (c *fakeConn) ChanSubscribe(subject string, ch chan *nats.Msg) (*nats.Subscription, error) {
@@ -290,7 +302,11 @@ func (c *fakeConn) ChanQueueSubscribe(subject, queue string, ch chan *nats.Msg) 
 	c.mu.Unlock()
 	return &nats.Subscription{Subject: subject, Queue: queue}, nil
 }
-func (c *fakeConn) Close() {}
+func (c *fakeConn) Close() {
+	if c.onClose != nil {
+		c.onClose()
+	}
+}
 
 // ---------- harness state: the single global effect log ----------
 
@@ -318,6 +334,10 @@ type H struct {
 	depth  int
 	kept   []*kept
 	exists map[string]bool
+	slowRunning, slowGo chan struct{}
+	conn   *fakeConn // the connection object of the current serve cycle
+	stale  []string  // "(cb,act)" of publishes that went to another connection object
+	staleS []string  // their subjects (for the report)
 	d      caseD
 	rids   []string
 	panics []string
@@ -337,6 +357,18 @@ func (h *H) add(term string) {
 	g := goid()
 	h.mu.Lock()
 	h.log = append(h.log, logEnt{h.curCb, h.curAct, h.curD, g == h.curGid, term})
+	h.mu.Unlock()
+}
+
+func (h *H) publish(c *fakeConn, subject string, payload []byte) {
+	g := goid()
+	h.mu.Lock()
+	if c != h.conn {
+		h.stale = append(h.stale, "("+strconv.Itoa(h.curCb)+","+strconv.Itoa(h.curAct)+")")
+		h.staleS = append(h.staleS, "conn"+strconv.Itoa(c.id)+":"+subject)
+	} else {
+		h.log = append(h.log, logEnt{h.curCb, h.curAct, h.curD, g == h.curGid, "EPublish " + B(subject) + " " + B(string(payload))})
+	}
 	h.mu.Unlock()
 }
 
@@ -574,6 +606,19 @@ func (h *H) runScript(ci int, r res.Resource, req res.CallRequest) {
 	}
 }
 
+// the callback that is in flight while Shutdown runs (first serve cycle): it waits until the
+// connection's Close was called, then emits
+func (h *H) slow(r res.Resource, req res.CallRequest) {
+	close(h.slowRunning)
+	<-h.slowGo
+	r.Event("late", nil)
+	r.ReaccessEvent()
+	if req != nil {
+		req.Timeout(5 * time.Millisecond)
+		req.OK(nil)
+	}
+}
+
 func panicTerm(v interface{}) string {
 	switch e := v.(type) {
 	case *res.Error:
@@ -647,6 +692,10 @@ func (h *H) build(s *res.Service) {
 				I int `json:"i"`
 			}
 			r.ParseParams(&p)
+			if p.I < 0 {
+				h.slow(r, r)
+				return
+			}
 			h.runScript(p.I, r, r)
 		}))
 		opts = append(opts, h.applyOptions(sd)...)
@@ -725,7 +774,7 @@ func wait(ch <-chan struct{}, what string) error {
 }
 
 // runCase drives the real service and returns the Coq term of the case
-func runCase(d caseD) (term string, mutated bool, hang error) {
+func runCase(d caseD) (term string, mutated bool, stale []string, hang error) {
 	h := &H{d: d, curCb: 999, panics: make([]string, len(d.Cbs))}
 	for i := range h.panics {
 		h.panics[i] = "None"
@@ -734,24 +783,90 @@ func runCase(d caseD) (term string, mutated bool, hang error) {
 	s.SetLogger(nil)
 	s.SetWorkerCount(4)
 	h.build(s)
-	conn := &fakeConn{h: h}
-	started := make(chan struct{})
-	s.SetOnServe(func(*res.Service) { close(started) })
-	served := make(chan struct{})
+	started := make(chan struct{}, 4)
+	s.SetOnServe(func(*res.Service) { started <- struct{}{} })
+	var served chan struct{}
 	var serveErr error
-	go func() {
-		serveErr = s.Serve(conn)
-		close(served)
-	}()
-	select {
-	case <-started:
-	case <-served:
-		return "", false, fmt.Errorf("serve returned early: %v", serveErr)
-	case <-time.After(10 * time.Second):
-		return "", false, errors.New("timeout waiting for service start")
+	serve := func(c *fakeConn) error {
+		h.mu.Lock()
+		h.conn = c
+		h.stale, h.staleS = nil, nil
+		h.mu.Unlock()
+		served = make(chan struct{})
+		sv := served
+		go func() {
+			serveErr = s.Serve(c)
+			close(sv)
+		}()
+		select {
+		case <-started:
+		case <-sv:
+			return fmt.Errorf("serve returned early: %v", serveErr)
+		case <-time.After(10 * time.Second):
+			return errors.New("timeout waiting for service start")
+		}
+		return nil
+	}
+	conn := &fakeConn{h: h, id: 1}
+	if d.Restart != "" {
+		// ---- first serve cycle on connection object A ----
+		connA := conn
+		h.slowRunning, h.slowGo = make(chan struct{}), make(chan struct{})
+		closed := make(chan struct{})
+		var once sync.Once
+		connA.onClose = func() { once.Do(func() { close(closed) }) }
+		if err := serve(connA); err != nil {
+			return "", false, nil, err
+		}
+		rid0 := layoutOf(d.Setup.Mode).rids[0]
+		pre := make(chan struct{})
+		if err := s.With(rid0, func(r res.Resource) { r.Event("early", nil); close(pre) }); err != nil {
+			return "", false, nil, err
+		}
+		if err := wait(pre, "first cycle callback"); err != nil {
+			return "", false, nil, err
+		}
+		stopped := make(chan struct{})
+		switch d.Restart {
+		case "inflight-with", "inflight-call":
+			if d.Restart == "inflight-with" {
+				if err := s.With(rid0, func(r res.Resource) { h.slow(r, nil) }); err != nil {
+					return "", false, nil, err
+				}
+			} else {
+				connA.mu.Lock()
+				ch := connA.ch
+				connA.mu.Unlock()
+				ch <- &nats.Msg{Subject: "call." + rid0 + ".m", Reply: "slow", Data: []byte(`{"params":{"i":-1}}`)}
+			}
+			if err := wait(h.slowRunning, "in-flight callback start"); err != nil {
+				return "", false, nil, err
+			}
+			go func() { s.Shutdown(); close(stopped) }()
+			// the in-flight callback emits only after the connection's Close was called
+			if err := wait(closed, "connection close"); err != nil {
+				return "", false, nil, err
+			}
+			close(h.slowGo)
+		default:
+			go func() { s.Shutdown(); close(stopped) }()
+		}
+		if err := wait(stopped, "first shutdown"); err != nil {
+			return "", false, nil, err
+		}
+		if err := wait(served, "first serve return"); err != nil {
+			return "", false, nil, err
+		}
+		// ---- second cycle: the same service on a NEW connection object B ----
+		conn = &fakeConn{h: h, id: 2}
+	}
+	if err := serve(conn); err != nil {
+		return "", false, nil, err
 	}
 	h.mu.Lock()
 	h.log = nil
+	h.kept = nil
+	h.exists = nil
 	h.mu.Unlock()
 
 	wid := d.Setup.Group
@@ -856,7 +971,7 @@ func runCase(d caseD) (term string, mutated bool, hang error) {
 			allSame = false
 		}
 	}
-	return "GC " + List(cbs) + "\n " + List(ents) + "\n " + List(pan) + "\n " + List(final) + " " + List(same), !allSame, hang
+	return "GC " + List(cbs) + "\n " + List(ents) + "\n " + List(pan) + "\n " + List(final) + " " + List(same) + " " + List(h.stale), !allSame, h.staleS, hang
 }
 
 // ---------- generation ----------
@@ -1176,11 +1291,18 @@ func main() {
 	var impl []ImplViolation
 	dist := map[string]int{}
 	add := func(class string, d caseD) {
-		term, mutated, hang := runCase(d)
+		term, mutated, stale, hang := runCase(d)
 		if hang != nil {
 			impl = append(impl, ImplViolation{What: "group run did not complete: " + hang.Error(), Desc: d, Tags: []string{"hang"}})
 			dist["hang"]++
 			return
+		}
+		if len(stale) > 0 {
+			impl = append(impl, ImplViolation{What: "messages published on a connection object the service is no longer served on: " + strings.Join(stale, " "), Desc: d, Tags: []string{"stale-conn"}})
+			dist["stale-conn"]++
+		}
+		if d.Restart != "" {
+			dist["restart:"+d.Restart]++
 		}
 		if mutated {
 			impl = append(impl, ImplViolation{What: "event mutated after delivery: an *Event kept by a listener no longer shows what the listener was handed", Desc: d, Tags: []string{"event-mutated"}})
@@ -1402,6 +1524,32 @@ func main() {
 					}
 				}
 			}
+		}
+		// (h) stop/start cycles: the ordinary scripts run in the second serve cycle, on a new connection
+		// object, after an idle Shutdown or a Shutdown with a callback in flight that emits an event
+		for i, op := range evOps {
+			for j, rs := range []string{"idle", "inflight-with", "inflight-call"} {
+				for k, ctx := range []string{"call", "with"} {
+					mode := []string{"direct", "pattern", "mount", "wild", "mountpat", "root"}[(i+j+k)%6]
+					sd := setupD{Mode: mode, Type: "unset", Apply: allApply((i+j)%2 == 0), Steps: g.steps(mode, (i+j+k)%3)}
+					acts := []actD{g.withApply(g.baseAction(op), sd, "ok"), g.baseAction("reaccess")}
+					if ctx == "call" {
+						acts = append(acts, actD{Op: "timeout", Ms: 7}, actD{Op: "reply"}, g.withApply(g.baseAction(op), sd, "ok"))
+					}
+					d := single(sd, ctx, acts...)
+					d.Restart = rs
+					add("restart", d)
+				}
+			}
+		}
+		nr := 40
+		if o.Tier == "thorough" {
+			nr = 600
+		}
+		for i := 0; i < nr; i++ {
+			d := g.randomCase()
+			d.Restart = g.r.Pick([]string{"idle", "inflight-with", "inflight-call", "inflight-with"})
+			add("restart", d)
 		}
 		// (d) random groups
 		n := 600
